@@ -80,7 +80,7 @@ func genC01(w *World, res *CheckResult) {
 		res.Functions = append(res.Functions, "parser.parser.parsePrimaryExpression")
 	}
 	// run-time helpers: library preconditions (a violated one is a failure the definition does not name)
-	res.Obls = append(res.Obls, selectObls(genPureAll(w), `^vm\.slice/(lib-pre:|pre-sat)`)...)
+	res.Obls = append(res.Obls, selectObls(genPureAll(w), `^vm\.slice/(lib-pre:|pre-sat)`, `^vm\.isNil/`)...)
 	res.Functions = append(res.Functions, "vm.slice")
 	for n := range w.Funcs {
 		if strings.HasPrefix(n, "compiler.compiler.") && strings.HasSuffix(n, "Node") {
